@@ -89,6 +89,36 @@ fn observe(kind: u32, addr: usize) {
     }
 }
 
+/// The ring whose (awake) kernel thread `sqpoll_progress` lets run.
+static SQPOLL_RING: std::sync::atomic::AtomicI32 = std::sync::atomic::AtomicI32::new(-1);
+
+/// Scheduling-point hook for `sqpoll-last-handle`: the simulated kernel thread consumes everything
+/// published at the first load of a kernel-shared word AFTER an `io_uring_enter` call of the ring
+/// (asynchronous progress while a10 waits for it).
+fn sqpoll_progress(kind: u32, _addr: usize) {
+    if kind != a10::verif::LOAD_SHARED {
+        return;
+    }
+    let rfd = SQPOLL_RING.load(std::sync::atomic::Ordering::SeqCst);
+    if rfd < 0 {
+        return;
+    }
+    simk::with_sim(|sim| {
+        let entered = sim.events.iter().any(|e| matches!(e, KEv::Enter { .. }));
+        if !entered {
+            return;
+        }
+        let mut evs = Vec::new();
+        if let Some(ring) = sim.rings.get_mut(&rfd) {
+            let n = ring.sq_pending();
+            if n > 0 {
+                ring.consume(n, &mut evs);
+            }
+        }
+        sim.events.append(&mut evs);
+    });
+}
+
 const KINDS: &[&str] = &["read", "write", "pread", "unlink", "mread", "sendzc"];
 
 /// The operation's resources hold a reference to the pool, its `Ok` results are `ReadBuf`s.
@@ -417,6 +447,59 @@ impl TdCase {
             poisoned: false,
             valid: true,
         }
+    }
+
+    /// A ring with a kernel submission thread (SQPOLL), of its own: the Ring is dropped first, then a
+    /// regular `AsyncFd`, the last handle. Its CLOSE is queued after the Ring is gone; the (awake)
+    /// kernel thread consumes it asynchronously — here: at the first load of a kernel-shared word
+    /// after the last handle's `io_uring_enter` — so the last handle has to wait for it before it
+    /// closes the ring (fix 5ae3e32). Observed: closes of the descriptor, entries left in the queue
+    /// when the ring descriptor was closed.
+    fn do_sqpoll_last_handle(&mut self) -> Vec<String> {
+        let pre = simk::drain_events();
+        simk::purge_closed();
+        let before: Vec<i32> = simk::with_sim(|s| s.rings.keys().copied().collect());
+        let ring_b = match Ring::config().with_submission_queue_size(4).with_kernel_thread().build() {
+            Ok(r) => r,
+            Err(e) => return vec![format!("sqpoll-last-handle setup-failed {e}")],
+        };
+        let Some(rfd_b) = simk::with_sim(|s| s.rings.keys().copied().find(|k| !before.contains(k))) else {
+            return vec!["sqpoll-last-handle no-new-ring".into()];
+        };
+        let sq_b = ring_b.sq();
+        let r = simk::with_ring(rfd_b, |ring, _| ring.fresh_fd());
+        let fd = unsafe { AsyncFd::from_raw_fd(r, sq_b.clone()) };
+        drop(sq_b);
+        let _ = util::catch(move || drop(ring_b));
+        let _ = simk::drain_events();
+        // the kernel thread is awake and runs "a little later"
+        SQPOLL_RING.store(rfd_b, std::sync::atomic::Ordering::SeqCst);
+        a10::verif::set_hook(Some(sqpoll_progress));
+        let _ = util::catch(move || drop(fd));
+        a10::verif::set_hook(Some(observe));
+        SQPOLL_RING.store(-1, std::sync::atomic::Ordering::SeqCst);
+        let mut closes = 0;
+        for e in simk::drain_events() {
+            match e {
+                KEv::CloseReq { fd, direct: false, .. } | KEv::CloseFd { fd, .. } if fd == r => closes += 1,
+                _ => {}
+            }
+        }
+        let left = simk::with_ring(rfd_b, |ring, _| ring.sq_pending());
+        let open = unsafe { simk::raw_syscall(libc::SYS_fcntl, r as i64, libc::F_GETFD as i64, 0, 0, 0, 0) } >= 0;
+        if open {
+            unsafe { simk::raw_syscall(libc::SYS_close, r as i64, 0, 0, 0, 0, 0) };
+        }
+        if closes != 1 || left != 0 || open {
+            self.fail("C12/sqpoll-last-handle", format!("ring with a kernel thread: the AsyncFd dropped after the Ring was closed {closes} times, {left} submissions were still queued when the ring was closed, descriptor still open: {open}"));
+        }
+        simk::with_sim(|sim| {
+            let mut keep = pre;
+            keep.append(&mut sim.events);
+            sim.events = keep;
+        });
+        self.feat("sqpoll-last-handle");
+        vec![format!("sqpoll-last-handle closes={closes} left={left} open={}", u8::from(open))]
     }
 
     fn fail(&mut self, sig: &str, what: String) {
@@ -1162,6 +1245,9 @@ impl TdCase {
                 out.push(format!("cqhead={head}"));
                 self.fx(&mut out);
             }
+            ["teardown", "sqpoll-last-handle"] => {
+                out = self.do_sqpoll_last_handle();
+            }
             ["teardown", "drop", "ring"] => {
                 if self.ring.is_none() {
                     return bad();
@@ -1523,6 +1609,10 @@ impl Case for TdCase {
         let live_fds: Vec<usize> = (0..self.fds.len()).filter(|k| self.fds[*k].ptr.is_some()).collect();
         let live_clones: Vec<usize> = (0..self.clones.len()).filter(|k| self.clones[*k].is_some()).collect();
         let live_bufs: Vec<usize> = (0..self.bufs.len()).filter(|k| self.bufs[*k].is_some()).collect();
+        // a ring with a kernel thread, on the side
+        if rng.chance(1, 40) {
+            return Some("teardown sqpoll-last-handle".into());
+        }
         // malformed stream
         if rng.chance(1, 30) {
             let n = self.ops.len() as u64 + 2;
